@@ -7,7 +7,7 @@
    the implementation's hashlib.sha1). *)
 From Coq Require Extraction ExtrOcamlBasic ExtrOcamlZBigInt.
 From Coq Require Import ZArith List.
-From Verif Require Import Lib.Bytes Crypto.Sha256 Crypto.Ripemd160 Model.Wire Model.EvalLib Model.EvalCore.
+From Verif Require Import Lib.Bytes Crypto.Sha256 Crypto.Ripemd160 Model.Wire Model.EvalLib Model.EvalCore Model.EvalSession.
 Import ListNotations.
 Open Scope Z_scope.
 
@@ -54,4 +54,4 @@ Definition sha1 (msg : bytes) : bytes :=
 
 Extraction Language OCaml.
 Extraction "../ocaml/c19_model.ml" bz zb sha1 sha256 ripemd160 lib_eval core_eval core_limits_ok
-  consensus_flags lib_dispatch cast_to_bool.
+  consensus_flags lib_dispatch cast_to_bool env_u32_version lib_session resolve core_obs.
